@@ -72,6 +72,22 @@ CHECKS['C09'] = dict(
               'z3/cvc5',
     thorough=True)
 
+CHECKS['C04'] = dict(
+    category='proof',
+    text='Reader: inductive loop invariant of iter_sections ties the '
+         'encoding stack to a ghost list of effective encodings maintained '
+         'by the specification rule (own, else nearest ancestor), for '
+         'nesting histories of any length; every content read receives own-'
+         'or-nearest-ancestor (diff: own only). Writer: object invariant '
+         'ties the level stack to the same rule; content calls request '
+         'inheritance exactly for preamble/meta and _prepare_content uses '
+         'own-or-top-of-stack. A bounded enumeration of histories over three '
+         'mutually incompatible encodings is the labelled stand-in.',
+    design_ref='5/C04',
+    technique='contract-based deductive verification: ghost specification '
+              'state + loop/object invariants on the real ASTs, z3/cvc5',
+    thorough=True)
+
 NOT_YET = 'check not built yet (work in progress; see DESIGN.md section 5)'
 NA = {}
 
